@@ -623,7 +623,7 @@ WORKFLOW = [
 
 import json as _json
 
-LISTS = ['[]', '[1]', '[2,1]', '[3,1,2]', '[1,1]']
+LISTS = ['[]', '[1]', '[2,1]', '[3,1,2]', '[1,1]', '[0]', '[0,1,0]']
 _ld = lambda l: _json.loads(l)
 
 
@@ -643,14 +643,16 @@ BUILTINS = [
      'RL': lambda db: [('[]', 0)]}, tags=('C20',), domain=[0, 1, 2, 3]),
   S('bi_lists', 'Sz(l, Size(l)) :- L(l);\nEl(l, i, Element(l, i)) :- L(l), N(i), i < Size(l);\n'
     'Ix(l, i, l[i]) :- L(l), N(i), i < Size(l);\nIn(x, l) :- N(x), L(l), x in l;\nSo(l, Sort(l)) :- L(l);\n'
-    'Cc(a, b, ArrayConcat(a, b)) :- L(a), L(b);\nJn(l, Join(l, "-")) :- L(l);', {'L': 1, 'N': 1},
+    'Cc(a, b, ArrayConcat(a, b)) :- L(a), L(b);\nJn(l, Join(l, "-")) :- L(l);\n'
+    'Js(Join(["a", "", "b"], ","), Join(Range(4), "-"));', {'L': 1, 'N': 1},
     {'Sz': lambda db: [(l, len(_ld(l))) for (l,) in db['L']],
      'El': lambda db: [(l, i, _ld(l)[i]) for (l,) in db['L'] for (i,) in db['N'] if i < len(_ld(l))],
      'Ix': lambda db: [(l, i, _ld(l)[i]) for (l,) in db['L'] for (i,) in db['N'] if i < len(_ld(l))],
      'In': lambda db: [(x, l) for (x,) in db['N'] for (l,) in db['L'] for e in _ld(l) if e == x],
      'So': lambda db: [(l, J(sorted(_ld(l)))) for (l,) in db['L']],
      'Cc': lambda db: [(a, b, J(_ld(a) + _ld(b))) for (a,) in db['L'] for (b,) in db['L']],
-     'Jn': lambda db: [(l, '-'.join(map(str, _ld(l)))) for (l,) in db['L']]},
+     'Jn': lambda db: [(l, '-'.join(map(str, _ld(l)))) for (l,) in db['L']],
+     'Js': lambda db: [('a,,b', '0-1-2-3')]},
     tags=('C20',), domains={'L': [(x,) for x in LISTS], 'N': [(0,), (1,), (2,)]}, max_rows={'quick': 2, 'thorough': 3},
     row_norm='json_compact'),
   S('bi_strings', 'Cat(a, b, a ++ b) :- W(a), W(b);\nSp(a, Split(a, ",")) :- W(a);\nTs(n, ToString(n)) :- N(n);\n'
@@ -658,7 +660,8 @@ BUILTINS = [
     {'Cat': lambda db: [(a, b, a + b) for (a,) in db['W'] for (b,) in db['W']],
      'Sp': lambda db: [(a, J(a.split(','))) for (a,) in db['W']],
      'Ts': lambda db: [(n, str(n)) for (n,) in db['N']], 'Ti': lambda db: [(12, -3)]},
-    tags=('C20',), domains={'W': [('',), ('a',), ('b,a',)], 'N': [(-1,), (0,), (2,)]}, row_norm='json_compact'),
+    tags=('C20',), domains={'W': [('',), ('a',), ('b,a',), ('1',), ('20',), ('true',), ('[1]',)],
+                            'N': [(-1,), (0,), (2,)]}, row_norm='json_compact'),
   S('bi_arith', 'A(x, y, x + y, x - y, x * y, -x) :- N(x), N(y);\nM(x, y, x % y) :- N(x), N(y), y > 0, x >= 0;\n'
     'G(x, y, Greatest(x, y), Least(x, y)) :- N(x), N(y);\n'
     'C(x, y, x < y, x <= y, x > y, x >= y, x == y, x != y) :- N(x), N(y);', {'N': 1},
